@@ -65,3 +65,17 @@ Definition outcome_eqb (a b : outcome) : bool :=
   | OLookup, OLookup | OEnd, OEnd | OErr, OErr => true
   | _, _ => false
   end.
+
+(* the lifecycle positions; vcl_hash is split by how vcl_recv left (lookup / pass) *)
+Inductive dnode := DRecv | DHashL | DHashP | DHit | DMiss | DPass | DFetch | DError | DDeliver | DLog.
+Definition scope_of (n : dnode) : scope :=
+  match n with
+  | DRecv => Recv | DHashL | DHashP => Hash | DHit => Hit | DMiss => Miss | DPass => Pass
+  | DFetch => Fetch | DError => Error | DDeliver => Deliver | DLog => Log
+  end.
+Definition dnode_eqb (a b : dnode) : bool :=
+  match a, b with
+  | DRecv, DRecv | DHashL, DHashL | DHashP, DHashP | DHit, DHit | DMiss, DMiss | DPass, DPass
+  | DFetch, DFetch | DError, DError | DDeliver, DDeliver | DLog, DLog => true
+  | _, _ => false
+  end.
